@@ -340,8 +340,9 @@ fn run_matrix<S: Service + 'static>(r: &mut Runner<S>, shard: u64, nshards: u64,
                 o.require = q.clone();
                 o.require_keys = k.clone();
                 // incompatible attribute AND failing QoS field: attributes are checked first
-                c.vals[0] = Some(1);
-                o.vals[0] = Some(if k.len() == 1 && k[0] == 3 { 2 } else { 1 });
+                let f0 = kinds.iter().position(|c| *c == 'n').unwrap();
+                c.vals[f0] = Some(1);
+                o.vals[f0] = Some(if k.len() == 1 && k[0] == 3 { 2 } else { 1 });
                 cases.push(matrix_case(&c, &o, pat));
             }
         }
